@@ -128,7 +128,7 @@ theorem field_after {ext : Ext} {x : SVal} {fs0 : BL} {s : SS} {adds : List (Lis
       s'.seen = s.seen.set idx true ∧ s'.next = idx + 1 ∧ s'.fields = s.fields.set idx c' ∧ s'.cached = s.cached := by
   have h := SS.element_total (pc := fun c => push ext c x) hget hseen hpc
   obtain ⟨⟨adds', hm'⟩, _⟩ := SS.element_mid hm
-    (StepOK.of_push (fun c c' => push_appends ext x c c' (noRaw_rawOK x hraw))) h
+    (StepOK.of_push (fun c c' => push_appends ext x c c')) h
   exact ⟨_, adds', h, hm', ShapeL.set_push hsl hget (push_takeRest ext x c c' hpc), rfl, rfl, rfl, rfl⟩
 
 /-! ### positional records -/
